@@ -287,6 +287,21 @@ def audit(ctx: Ctx) -> dict:
     return res
 
 
+def coqchk(prop: str, timeout=1500) -> dict:
+    """Thorough tier: re-check Properties/Cxx.vo and everything it depends on with the independent checker."""
+    try:
+        p = subprocess.run(["coqchk", "-silent", "-o", "-R", str(COQ), "CM", f"CM.Properties.{prop}"], cwd=COQ,
+                           stdout=subprocess.PIPE, stderr=subprocess.STDOUT, text=True, timeout=timeout)
+    except subprocess.TimeoutExpired:
+        return {"ok": False, "error": "coqchk timeout"}
+    out = p.stdout
+    m = re.search(r"\* Axioms:(.*?)\n\s*\n\* Constants", out, flags=re.S)
+    axioms = m.group(1).strip() if m else "?"
+    bad = [k for k in ("type-in-type", "unsafe (co)fixpoints", "positivity is assumed") if not re.search(re.escape(k) + r"[^\n]*<none>", out)]
+    return {"ok": p.returncode == 0 and axioms == "<none>" and not bad, "axioms": axioms, "flags": bad, "rc": p.returncode,
+            "tail": out[-600:] if p.returncode != 0 else ""}
+
+
 def parse_N_list(out: str) -> list[int] | None:
     """Parse the `= [a; b; c] : list N` that `Eval vm_compute in (bad_indices ...)` prints."""
     m = re.search(r"=\s*(\[[^\]]*\])\s*:\s*list N", out, flags=re.S)
@@ -473,6 +488,9 @@ def finish(ctx: Ctx, extra_trusted=None, assumptions=None, explanation="") -> in
         extra = [x for x in a["axioms"] if x not in allowed]
         if extra:
             ctx.tie_broken.append("axioms: theorems depend on undeclared assumptions: " + ", ".join(extra))
+    chk = getattr(ctx, "coqchk", None)
+    if chk is not None and not chk.get("ok"):
+        ctx.tie_broken.append(f"coqchk: independent re-check of Properties/{prop}.vo failed or reports axioms: {chk}")
     # tie (b): correspondence
     for m in ctx.mismatches:
         ctx.tie_broken.append(f"correspondence: {m['correspondence']}: {m['what']}")
@@ -518,6 +536,7 @@ def finish(ctx: Ctx, extra_trusted=None, assumptions=None, explanation="") -> in
         "known_findings_reproduced": sorted(reproduced),
         "notes": ctx.notes,
         "make_s": b.get("make_s"),
+        "coqchk": getattr(ctx, "coqchk", None),
     }
     ev = {"property_id": prop, "tier": ctx.tier, "seed": ctx.seed, "level": "proof", "coverage": cov,
           "assumptions": assumptions or [], "wall_s": wall, "violations": len(unlisted) + (1 if (not unlisted and ctx.tie_broken) else 0)}
